@@ -14,7 +14,8 @@ EXPLANATION = (
     "first min(len, len) blocks of ONE of the two features (one sum per feature); the result is numerator / "
     "denominator. In-place lane arithmetic (`a -= b; a *= a`) is evaluated symbolically per loop iteration, so the "
     "operator (`a - b`) and the in-place form read alike."
-    ' (R16.4, the one decided clause of the packing routine) a lane buffer that is filled partially and pushed as a block inside the packing loop is re-initialised to zeros inside that loop (stale lanes of the previous block would otherwise pad a partial last block).')
+    ' (R16.4, the one decided clause of the packing routine) a lane buffer that is filled partially and pushed as a block inside the packing loop is re-initialised to zeros inside that loop (stale lanes of the previous block would otherwise pad a partial last block).'
+    ' (R16.5) the owned conversion Vec<f32> -> Feature is the borrowed packer applied to the same vector (or both are spliced from one shared helper).')
 NOT_DECIDED = ["Feature::from_vec: chunks of 8 lanes with a zero-padded last block (value-level `n mod 8` arithmetic)",
                "round trip equality, symmetry, triangle inequality, range and scaling invariance as numeric statements",
                "floating-point accuracy of the lane reductions"]
